@@ -112,8 +112,21 @@ func main() {
 	dump := flag.Bool("dump", false, "print every obligation")
 	nocache := flag.Bool("nocache", false, "ignore the result cache")
 	evdir := flag.String("evidence-dir", "", "write evidence under this directory instead of <verif>")
+	symOf := flag.String("sym", "", "debug: print the symbolic summary of the named functions (comma separated) and exit")
 	flag.Parse()
 	start := time.Now()
+	if *symOf != "" {
+		p, err := LoadProgram(*repo)
+		if err != nil {
+			fmt.Println(err)
+			os.Exit(2)
+		}
+		for _, k := range strings.Split(*symOf, ",") {
+			fmt.Println("==", k)
+			debugSym(p, k)
+		}
+		return
+	}
 	seed := 0
 	if s := os.Getenv("VERIF_SEED"); s != "" {
 		seed, _ = strconv.Atoi(s)
